@@ -574,6 +574,8 @@ pub fn suite_ioread(dir: &str, seed: u64, thorough: bool, st: &mut Stats) {
             st.count(&format!("ioread/read_at/{}", if use_big { "large" } else { "small" }));
             let end = off as usize + size;
             match &r {
+                // (no bytes requested: no bytes, wherever the offset lies)
+                Ok(d) if size == 0 => { if !d.is_empty() { st.violation("C08", &format!("local read_at returned {} bytes, none requested", d.len()), &line); } }
                 Ok(d) => { if end > file.len() || d[..] != file[off as usize..end] { st.violation("C08", &format!("local read_at returned {} bytes that are not the {} requested ones", d.len(), size), &line); } }
                 Err(e) => { if e == "PANIC" { st.violation("C15", "local read_at panicked", &line); } else if end <= file.len() { st.violation("C08", &format!("local read_at failed ({}) although the file has the bytes", e), &line); } }
             }
